@@ -220,7 +220,8 @@ def run(ctx):
                                                              "ProbLogProofs.C01.C01_run_is_probability",
                                                              "ProbLogProofs.C01.C01_spec_total_probability",
                                                              "ProbLogProofs.C01.C01_spec_evidence_is_intersection",
-                                                             "ProbLogProofs.C01.C01_spec_more_evidence_less_mass"],
+                                                             "ProbLogProofs.C01.C01_spec_more_evidence_less_mass",
+                                                             "ProbLogProofs.C01.C01_run_definite_no_undef"],
                     refutations=["ProbLogProofs.C01.C01_invalid_group_negative_weight"])
     # downstream of the grounder: evaluate(loaded d-DNNF) = weighted count over the consistent valuations of the acyclic
     # ground program (A17), cycle breaking = perfect model (A16), Clark = unique model (A10)
